@@ -8,6 +8,7 @@ import RNacos.Driver.IndexDrv
 import RNacos.Driver.LogDrv
 import RNacos.Driver.StoreDrv
 import RNacos.Driver.ApplyDrv
+import RNacos.Driver.PrivDrv
 open RNacos.Driver
 
 /-- Generic loop: `# …` lines are echoed and reset the state. -/
@@ -44,6 +45,8 @@ def main (args : List String) : IO UInt32 := do
   | ["config", "--spec"] => loop stdin stdout ({} : ConfigDrv.SpecSt) ConfigDrv.specStep {}; return 0
   | ["naming"] => loop stdin stdout ({} : RNacos.Naming.Naming) NamingDrv.step {}; return 0
   | ["naming", "--spec"] => loop stdin stdout ({} : NamingDrv.SpecSt) NamingDrv.specStep {}; return 0
+  | ["priv"] => loop stdin stdout () PrivDrv.step (); return 0
+  | ["priv", "--spec"] => loop stdin stdout ({} : PrivDrv.SpecSt) PrivDrv.specStep {}; return 0
   | ["apply"] => loop stdin stdout () ApplyDrv.step (); return 0
   | ["apply", "--spec"] => loop stdin stdout ({} : ApplyDrv.SpecSt) ApplyDrv.specStep {}; return 0
   | ["logstore"] => loop stdin stdout ({} : RNacos.LogStore.Store) StoreDrv.step {}; return 0
